@@ -15,7 +15,7 @@
        P = [observed inner events (tag, 0)]
    tags: 0 XStart 1 XStop 2 CStart 3 CStop 4 NCfg 5 NReady 6 NNotReady 7 IStart 8 IStop
          (errors: the tag of the call that failed) *)
-From Verif Require Import Common.Base C10.Model.
+From Verif Require Import Common.Base C10.Model C10.Checker.
 
 Definition nthL (i : nat) (L : list (list nat)) : list nat := nth i L [].
 Definition nthP (i : nat) (P : list (list (nat * nat))) : list (nat * nat) := nth i P [].
@@ -71,6 +71,7 @@ Definition reproduces (ns : list nat) (es : list (nat * nat)) (o : list nat) : b
   end.
 
 Definition orders_tied (g : graph) (x : extset) (o : orders) : bool :=
+  wf_b g x &&      (* the hypothesis wf_topology of the theorems about computed orders (Properties.wf_b_sound) *)
   orders_ok g x o &&
   reproduces (exts x) (deps x) (ext_order o) &&
   reproduces (nodes g) (edges g) (start_order o) &&
@@ -98,7 +99,11 @@ Definition model_raw (kind : nat) (L : list (list nat)) (P : list (list (nat * n
    L = [exts; the cycle named by the implementation's error (empty when no error was returned); [panicked]], P = [deps].
    The model algorithm must reject it too, and both named cycles must be real cycles of deps. *)
 Definition check_cyclic (L : list (list nat)) (P : list (list (nat * nat))) : bool :=
-  (* L[2] = [1] when extensions.New panicked (self-dependency: simple.SetEdge "adding self edge") *)
+  (* L[2] = [extensions.New panicked (self-dependency: simple.SetEdge "adding self edge");
+             it returned "unable to find extension ..." (dependency on an extension that is not configured)] *)
+  if missing_dependency (nthL 0 L) (nthP 0 P) then flag 1 (nthL 2 L) && negb (flag 0 (nthL 2 L))
+  else
+  negb (flag 1 (nthL 2 L)) &&
   match compute_order (nthL 0 L) (nthP 0 P) [] with
   | None => flag 0 (nthL 2 L)
   | Some (Cyclic c) => negb (flag 0 (nthL 2 L)) && is_cycle (nthP 0 P) c && is_cycle (nthP 0 P) (nthL 1 L)
@@ -224,4 +229,55 @@ Definition model_out (c : nat * (list (list nat) * list (list (nat * nat))))
          let ms := collector_run_reload (trigger_of (nth 1 (nthL 17 L) 0)) (flag 0 (nthL 17 L)) (map gen_of gs) in
          Some (flat_map (fun m => (99, 0) :: map ev_wire (fst m)) ms, flat_map (fun m => (99, 0) :: map err_wire (snd m)) ms)
   | _ => model_lifecycle kind L P
+  end.
+
+(* ---- the clause checker (Checker.v, proved to decide the clauses: Properties.prop_ok_iff) on the
+   OBSERVED behaviour of every case — an oracle inside Coq that does not use the model's step
+   functions.  kind 0: P[5] = the configuration-derived component-to-component "sends data to" pairs. *)
+Definition ev_of_wire (p : nat * nat) : option ev :=
+  match fst p with
+  | 0 => Some (XStart (snd p)) | 1 => Some (XStop (snd p)) | 2 => Some (CStart (snd p)) | 3 => Some (CStop (snd p))
+  | 4 => Some (NCfg (snd p)) | 5 => Some (NReady (snd p)) | 6 => Some (NNotReady (snd p))
+  | _ => None    (* inner events of shared components: not the subject of these clauses *)
+  end.
+
+Definition err_of_wire (p : nat * nat) : option err :=
+  match fst p with
+  | 0 => Some (ErrXStart (snd p)) | 1 => Some (ErrXStop (snd p)) | 2 => Some (ErrCStart (snd p)) | 3 => Some (ErrCStop (snd p))
+  | 4 => Some (ErrCfg (snd p)) | 5 => Some (ErrReady (snd p)) | 6 => Some (ErrNotReady (snd p)) | 9 => Some (ErrProvider (snd p))
+  | _ => None
+  end.
+
+Fixpoint keep_some {A B} (f : A -> option B) (l : list A) : list B :=
+  match l with
+  | [] => []
+  | x :: r => match f x with Some y => y :: keep_some f r | None => keep_some f r end
+  end.
+
+Definition obs_of (kind : nat) (L : list (list nat)) (P : list (list (nat * nat))) : obs :=
+  {| o_comps := nthL 0 L; o_exts := nthL 2 L;
+     o_sends := match kind with 0 => nthP 5 P | _ => nthP 0 P end;
+     o_deps := nthP 1 P;
+     o_fcs := nthL 10 L; o_fxs := nthL 8 L; o_fcp := nthL 11 L; o_fxp := nthL 9 L;
+     o_log := keep_some ev_of_wire (nthP 2 P); o_errs := keep_some err_of_wire (nthP 3 P) |}.
+
+(* kind 6: every generation that was built (non-empty observed log) *)
+Definition gens_obs (L : list (list nat)) (P : list (list (nat * nat))) : list obs :=
+  map (fun lp => obs_of 2 (fst lp) (snd lp))
+      (filter (fun lp => match nthP 2 (snd lp) with [] => false | _ => true end) (split_gens (length L) L P)).
+
+Definition prop_case (c : nat * (list (list nat) * list (list (nat * nat)))) : bool :=
+  let '(kind, (L, P)) := c in
+  match kind with
+  | 4 | 7 => true
+  | 6 => forallb prop_ok (gens_obs L P)
+  | _ => prop_ok (obs_of kind L P)
+  end.
+
+Definition prop_violated (c : nat * (list (list nat) * list (list (nat * nat)))) : list nat :=
+  let '(kind, (L, P)) := c in
+  match kind with
+  | 4 | 7 => []
+  | 6 => flat_map violated (gens_obs L P)
+  | _ => violated (obs_of kind L P)
   end.
